@@ -150,6 +150,22 @@ def shapes():
         return p
     yield 'cycle', cyc
 
+    def shared2():
+        s = Opt('s')
+        return [Opt('h1', x=s), Opt('h2', x=s)]
+    yield 'child shared between two holders (direct attribute of both)', shared2
+
+    def selfref():
+        a = Opt('a')
+        a.me = a
+        return a
+    yield 'self reference as a direct attribute', selfref
+
+    def shared_duck():
+        s = Duck('s')
+        return [Duck('h1', x=s), Duck('h2', x=s)]
+    yield 'duck-typed child shared between two holders', shared_duck
+
 
 def check_shape(label, build, viol, obs):
     LOG.clear()
@@ -192,7 +208,7 @@ def main():
         for label, build in shapes():
             if want.startswith('L2') and 'sibling' not in label:
                 continue
-            if want.startswith('L4') and '__setstate__' not in label and label != 'top':
+            if want.startswith('L4') and '__setstate__' not in label and label != 'top' and not any(w in label for w in ('shared', 'cycle', 'self reference')):
                 continue
             check_shape(label, build, viol, obs)
     if prop == 'C15' or not want:
@@ -201,6 +217,8 @@ def main():
              ('one child, child patch', lambda: Opt('p', x=1, a=Opt('a', y=1)), {'a': {'y': 2}}, "Opt(a=Opt(name='a', y=2), name='p', x=1)"),
              ('one child, child replaced', lambda: Opt('p', x=1, a=Opt('a', y=1)), {'a': 'replaced'}, "Opt(a='replaced', name='p', x=1)"),
              ('chain of three, nested patch', lambda: Opt('p', a=Opt('a', b=Opt('b', z=1))), {'a': {'b': {'z': 2}}}, "Opt(a=Opt(b=Opt(name='b', z=2), name='a'), name='p')"),
+             ('duck-typed child (opts in by the signature of its __getstate__ only), root patch', lambda: Opt('p', x=1, a=Duck('a', x=1)), {'x': 2}, "Opt(a=Duck(name='a', x=1), name='p', x=2)"),
+             ('duck-typed child, child patch', lambda: Opt('p', x=1, a=Duck('a', y=1)), {'a': {'y': 2}}, "Opt(a=Duck(name='a', y=2), name='p', x=1)"),
              ('child in list, root patch', lambda: Opt('p', x=1, l=[Opt('a', x=1)]), {'x': 2}, "Opt(l=[Opt(name='a', x=1)], name='p', x=2)"),
              ('child under plain object, root patch', lambda: Opt('p', x=1, q=Plain(a=Opt('a', x=1))), {'x': 2}, "Opt(name='p', q=Plain(a=Opt(name='a', x=1)), x=2)"),
              ('child in dict, root patch', lambda: Opt('p', x=1, d={'k': Opt('a', x=1)}), {'x': 2}, "Opt(d={k: Opt(name='a', x=1)}, name='p', x=2)"),
